@@ -70,6 +70,47 @@ def expectedSfl (dflt : Aff) (init : Option Status) (rows : List Tx) (i : Nat) :
             else some none
     | _ => none
 
+/-- The amount the rule denies automatically for the sale `rows[i]`, whatever the row itself
+    specifies (0 = nothing denied); `none` if the row is not a sale by a non-registered seller
+    at a loss. -/
+def autoDenied (dflt : Aff) (init : Option Status) (rows : List Tx) (i : Nat) : Option Rat :=
+  match rows[i]? with
+  | none => none
+  | some sale =>
+    match sale.act with
+    | .sell sold px comm rate crate _ =>
+      let bs := Spec.after (Spec.Books.init dflt init) (rows.take i)
+      match Spec.gain0 (bs sale.aff) sale.act with
+      | some g0 =>
+        if g0 < 0 then
+          expectedSfl dflt init (rows.set i { sale with act := .sell sold px comm rate crate none }) i
+            |>.map (fun e => match e with | some x => x.loss | none => 0)
+        else none
+      | none => none
+    | _ => none
+
+def wholeCents (q : Rat) : Bool := isInteger (q * 100)
+
+/-- C02, the tolerance for a specified amount: a sale the implementation rejected for "max allowed
+    discrepancy" although the specified amount is within 0.001 of the rule's amount.  `rows` = the
+    report's rows so far followed by the remaining input rows; `i` = index of the rejected row.
+    Exactly at 0.001 the verdict is only judged when the rule's amount is a whole number of cents
+    (otherwise 28-digit rounding noise decides the comparison). -/
+def sflTolRejectOracle (dflt : Aff) (init : Option Status) (rows : List Tx) (i : Nat) : List (String × String) :=
+  match rows[i]? with
+  | some sale =>
+    match sale.act with
+    | .sell _ _ _ _ _ (some (v, false)) =>
+      match autoDenied dflt init rows i with
+      | some d =>
+        let diff := rabs (d - v)
+        if diff ≤ sflMaxDiff && (diff < sflMaxDiff - 1 / pow10 9 || (diff == sflMaxDiff && wholeCents d)) then
+          [("C02", s!"row {i}: specified superficial loss {ratToString v} is within {ratToString sflMaxDiff} of the rule's {ratToString d} (difference {ratToString diff}) but the sale is rejected for exceeding the allowed discrepancy")]
+        else []
+      | none => []
+    | _ => []
+  | none => []
+
 /-- Compare every Sell row of the implementation with the declarative rule. -/
 partial def sflOracle (dflt : Aff) (init : Option Status) (rows : List (Tx × ImplDelta)) : List (String × String) :=
   let txs := rows.map (·.1)
@@ -94,6 +135,18 @@ partial def sflOracle (dflt : Aff) (init : Option Status) (rows : List (Tx × Im
                else [])
           | none => []
         else []
+      -- a specified amount (without '!') beyond the tolerance must not have been accepted
+      let errs := errs ++
+        (match t.act with
+         | .sell _ _ _ _ _ (some (v, false)) =>
+           if x.gen then [] else
+           (match autoDenied dflt init txs i with
+            | some d =>
+              if rabs (d - v) > sflMaxDiff + 1 / pow10 9 then
+                [("C02", s!"row {i}: specified superficial loss {ratToString v} differs from the rule's {ratToString d} by more than {ratToString sflMaxDiff} and was accepted without '!'")]
+              else []
+            | none => [])
+         | _ => [])
       if errs.isEmpty then go (i + 1) rest else errs
   go 0 rows
 
